@@ -164,7 +164,7 @@ func (h *harness) dictionary() {
 		}
 	}
 	// longer strings over the quoting/wildcard core
-	n2 := h.cfg.N(6, 8)
+	n2 := h.cfg.N(6, 7)
 	enumerate("a\\*?-", n2, func(s string) bool {
 		if len(s) <= n1 {
 			return true // covered above
@@ -182,7 +182,7 @@ func (h *harness) dictionary() {
 	})
 	step := 1
 	if h.cfg.Thorough() {
-		step = 3 // 1555^2 / 3
+		step = 5 // 1555^2 / 5
 	}
 	k := 0
 	for _, s := range short {
